@@ -457,19 +457,19 @@ theorem metaTypeOf_spec (name : String) (hasTy : Bool) (typ0 : String) (line : N
     (s : VState) (h : Inv s) :
     wp (metaTypeOf name hasTy typ0 line site) (fun _ s' => Inv s' ∧ Pres s s') s := by
   unfold metaTypeOf
-  wps
   split
-  · next m hm =>
-    obtain ⟨a, k, h1, h2, _⟩ := h.metaOK m (mem_of_findMeta hm)
-    have : m.attr.bind (s.attrs[·]?) = some k := by rw [h1]; exact h2
-    rw [this]
-    wps
+  · wps
     exact ⟨h, Pres.refl _⟩
-  · split
+  · wps
+    split
+    · next m hm =>
+      obtain ⟨a, k, h1, h2, _⟩ := h.metaOK m (mem_of_findMeta hm)
+      have : m.attr.bind (s.attrs[·]?) = some k := by rw [h1]; exact h2
+      rw [this]
+      wps
+      exact ⟨h, Pres.refl _⟩
     · wps
       exact step_same h rfl rfl rfl
-    · wps
-      exact ⟨h, Pres.refl _⟩
 
 theorem visitLen_spec (d : LenDecl) (line : Nat) (s : VState) (h : Inv s) :
     wp (visitLen d line) (FPost s) s := by
